@@ -155,6 +155,21 @@ def run(chk, prog, tier):
         H.bind_provider(st, provider)
         res = it.run('jwt_verify_sig', [Ref(jwt), Term(('head',), ptr=True), Term(('head_len',)), Term(('sig',), ptr=True)], st)
         runs.append((rule, it, [], None))
+    if tier == 'thorough':
+        # cross-validation of the modular decomposition: the whole call tree inlined, per provider
+        for provider in H.providers(prog):
+            if provider == 'mbedtls':
+                continue
+            for keymode in ('none', 'sym'):
+                rule = TaintRule()
+                it = Interp(prog, unit, model=model, rule=rule, budget=4000000, hooks=H.std_hooks(env))
+                st = State()
+                o = H.common_obj(st, 'checker', False)
+                H.set_cb(st, o, True)
+                H.set_key(st, o, env, keymode)
+                H.bind_provider(st, provider)
+                res = it.run('jwt_checker_verify', [Ref(o), Term(('token',), ptr=True)], st)
+                runs.append((rule, it, res, o))
     for rule, it, res, o in runs:
             total += rule.uses_checked
             seen = set()
@@ -183,6 +198,9 @@ def run(chk, prog, tier):
     chk.rule('C19.callback-taint', 'after the callback, the JSON trees it was handed are only released, never queried or read; jwt->alg is not re-written',
              total, bad, floor=30)
     chk.rule('C19.callback-error', 'a callback returning non-zero makes verify fail with flag and message', n_cbfail, b_cbfail, floor=2)
+    # installing / replacing / removing the callback behaves as documented (a removed callback must not run)
+    from props import c10
+    chk.guard('setcb table', c10.check_setcb, chk, prog, env, model, 'checker', 'C19.setcb-table')
     # the key/alg the callback selects go through the same admission as setkey
     c02.check_order(chk, prog, env)
     # the public jwt_t API cannot change jwt->alg or jwt->key
